@@ -441,3 +441,45 @@ func zzServerNameDecode() {
 		zzsymCover("sni_accept")
 	}
 }
+
+// ALPN encoder at the two-byte list-length boundary: 255 names of 255 bytes plus a last name of 252..255 bytes and,
+// optionally, one more 1-byte name (encoded list of 65533..65538 bytes), and a single name of 255 / 256 bytes. Either
+// the encoder refuses, or its output is a well-formed RFC 7301 list (declared length = bytes that follow, every
+// name 1..255 bytes) that the decoder accepts and maps back to the same names.
+//
+//symgo:entry covers=alpn_big_refused,alpn_big_encoded
+func zzALPNEncodeAtLengthBoundary() {
+	var names []string
+	mk := func(n int, c byte) string {
+		b := make([]byte, n)
+		for i := range b {
+			b[i] = c
+		}
+		return string(b)
+	}
+	if zzsymChoice("single_long_name", 2) == 1 {
+		names = []string{mk(255+zzsymChoice("extra", 2), 'x')}
+	} else {
+		for i := 0; i < 255; i++ {
+			names = append(names, mk(255, 'a'))
+		}
+		names = append(names, mk(252+zzsymChoice("last_len", 4), 'b'))
+		if zzsymChoice("one_more", 2) == 1 {
+			names = append(names, "c")
+		}
+	}
+	out, err := ALPNOffer{Protocols: names}.MarshalData()
+	if err != nil {
+		zzsymCover("alpn_big_refused")
+		return
+	}
+	ok, offs, lens := zzALPNRef(out)
+	zzsymAssert(ok, "alpn_encoder_output_is_well_formed")
+	zzsymAssert(len(offs) == len(names), "alpn_encoder_keeps_every_name")
+	for i := range offs {
+		zzsymAssert(lens[i] == len(names[i]), "alpn_encoder_name_lengths")
+	}
+	back := &ALPNOffer{}
+	zzsymAssert(back.UnmarshalData(out) == nil && len(back.Protocols) == len(names), "alpn_decoder_accepts_encoder_output")
+	zzsymCover("alpn_big_encoded")
+}
